@@ -69,6 +69,7 @@ Apply(f, x) ==
       [] f.n = "fstmodc" -> IntV(V(V(x)[1]) % f.c)
       [] f.n = "noneIf"  -> IF IsIntEq(x, f.c) THEN None ELSE x
       [] f.n = "nanIf"   -> IF IsIntEq(x, f.c) THEN NaN ELSE x
+      [] f.n = "appendc" -> LstV(Append(V(x), IntV(f.c)))     \* (python: appends in place)
       [] f.n = "failIf"  -> IF IsIntEq(x, f.c) THEN ErrV(f.c) ELSE x
       [] f.n = "failMod" -> IF IsInt(x) /\ V(x) % 3 = f.c THEN ErrV(V(x)) ELSE x
       [] f.n = "list3"   -> LstV(<<x, IntV(V(x) + 10), IntV(V(x) + 20)>>)
